@@ -607,8 +607,11 @@ seed("c19-corner-twice", "C19", ME2, """                sum += 0.25 * dx * dy * 
                     + self.vars[ i * self.ny + j + 1 ][ var ]""", """                sum += 0.25 * dx * dy * ( self.vars[ i * self.ny + j ][ var ]
                     + self.vars[ ( i + 1 ) * self.ny + j ][ var ]
                     + self.vars[ ( i + 1 ) * self.ny + j ][ var ]""", "trapezium-2d/trapezium")
+seed("c19-last-node-formula", "C19", ME1, "                result = if x_pos == self.nodes[ node + 1 ] { right } else { left + deriv * delta_x };", "                result = left + deriv * delta_x;", "interpolation/nodal-exact", "the original defect (finding 21)")
+seed("c19-snap-window-extent", "C19", ME1, "             || ( self.nodes[ node ] - x_pos ).abs() < 1.0e-7\n             || ( self.nodes[ node + 1 ] - x_pos ).abs() < 1.0e-7", "             || ( self.nodes[ node ] - x_pos ).abs() < 1.0e-7 * self.nodes[ self.nodes.size() - 1 ].abs().max( 1.0 )\n             || ( self.nodes[ node + 1 ] - x_pos ).abs() < 1.0e-7 * self.nodes[ self.nodes.size() - 1 ].abs().max( 1.0 )", "interpolation", "a snapping window that grows with the mesh (c19-ext3-2)")
+seed("n-c19-nodal-left-too", "C19", ME1, "                result = if x_pos == self.nodes[ node + 1 ] { right } else { left + deriv * delta_x };", "                result = if x_pos == self.nodes[ node + 1 ] { right } else if x_pos == self.nodes[ node ] { left } else { left + deriv * delta_x };", "SILENT", "both ends returned directly")
 seed("c19-reader-stride", "C19", ME1, "            if i % (self.nvars+1) == 0 {", "            if i % (self.nvars) == 0 {", "io-agreement")
-seed("c19-interp-right-left", "C19", ME1, "let deriv = (right - left.clone()) / ( self.nodes[ node + 1 ] - self.nodes[ node ] );", "let deriv = (left.clone() - right) / ( self.nodes[ node + 1 ] - self.nodes[ node ] );", "interpolation")
+seed("c19-interp-right-left", "C19", ME1, "let deriv = (right.clone() - left.clone()) / ( self.nodes[ node + 1 ] - self.nodes[ node ] );", "let deriv = (left.clone() - right.clone()) / ( self.nodes[ node + 1 ] - self.nodes[ node ] );", "interpolation")
 seed("c19-trap1d-same-end", "C19", ME1, "                              + self.vars[ node + 1 ][ var ] );", "                              + self.vars[ node ][ var ] );", "trapezium-1d")
 seed("c19-varmatrix-transposed", "C19", ME2, "                m[(i,j)] = self.vars[ i * self.ny + j ][ var ].clone();", "                m[(i,j)] = self.vars[ j * self.ny + i ][ var ].clone();", "var-matrix")
 seed("c19-mesh2d-new-order", "C19", ME2, """        for _i in 0..nx {
@@ -645,6 +648,18 @@ seed("c14-log-inverted", "C14", CE, "        self.ln() / b.ln()", "        b.ln(
 seed("c14-coth-tanh-of-inverse", "C14", CH, "        Cmplx::one() / self.tanh()", "        ( Cmplx::one() / self.clone() ).tanh()", "reciprocals/coth")
 seed("c14-exp-cos-sin", "C14", CE, "Complex::new( a * f64::cos(self.imag), a * f64::sin(self.imag) )", "Complex::new( a * f64::sin(self.imag), a * f64::cos(self.imag) )", "primitive-forms/exp")
 seed("c14-powf-angle", "C14", CE, "        let b = x * theta;", "        let b = 0.5 * x * theta;", "pow/powf")
+seed("c14-asin-sign", "C14", CT, "        - I * ((Cmplx::one() - squared).sqrt() + I * self.clone()).ln()\n    }\n\n    /// Return the inverse cos", "        I * ((Cmplx::one() - squared).sqrt() + I * self.clone()).ln()\n    }\n\n    /// Return the inverse cos", "right-inverse/asin")
+seed("c14-asin-radicand", "C14", CT, "        - I * ((Cmplx::one() - squared).sqrt() + I * self.clone()).ln()", "        - I * ((Cmplx::one() + squared).sqrt() + I * self.clone()).ln()", "right-inverse/asin")
+seed("c14-acos-no-pi2", "C14", CT, "        I * ((Cmplx::one() - squared).sqrt() + I * self.clone()).ln() + PI_2", "        I * ((Cmplx::one() - squared).sqrt() + I * self.clone()).ln()", "right-inverse/acos")
+seed("c14-atan-swapped-logs", "C14", CT, "( (Cmplx::one() - iz).ln() - (Cmplx::one() + iz).ln() ) * I * 0.5", "( (Cmplx::one() + iz).ln() - (Cmplx::one() - iz).ln() ) * I * 0.5", "right-inverse/atan")
+seed("c14-atanh-no-half", "C14", CH, "( ( z + 1.0 ).ln() - ( Cmplx::one() - z ).ln() ) * 0.5", "( ( z + 1.0 ).ln() - ( Cmplx::one() - z ).ln() )", "right-inverse/atanh")
+seed("c14-asinh-minus-one", "C14", CH, "( ( z * z + 1.0 ).sqrt() + z ).ln()", "( ( z * z - 1.0 ).sqrt() + z ).ln()", "right-inverse/asinh")
+seed("c14-acosh-merged-sqrt", "C14", CH, "( ( z - 1.0 ).sqrt() * ( z + 1.0 ).sqrt() + z ).ln()", "( ( z * z - 1.0 ).sqrt() + z ).ln()", "inverse-branch/acosh", "still a right inverse; the branch cut moves (c14-ext-3)")
+seed("c14-atanh-merged-ln", "C14", CH, "( ( z + 1.0 ).ln() - ( Cmplx::one() - z ).ln() ) * 0.5", "( ( z + 1.0 ) / ( Cmplx::one() - z ) ).ln() * 0.5", "inverse-branch/atanh", "still a right inverse; ln of a quotient has a different cut")
+seed("c14-asin-other-root", "C14", CT, "        - I * ((Cmplx::one() - squared).sqrt() + I * self.clone()).ln()", "        - I * (I * (squared - Cmplx::one()).sqrt() + I * self.clone()).ln()", "inverse-branch/asin", "i*sqrt(z^2-1) is another square root of 1-z^2: right inverse, wrong branch in two quadrants")
+seed("n-c14-asin-reordered", "C14", CT, "        - I * ((Cmplx::one() - squared).sqrt() + I * self.clone()).ln()", "        - ( I * (I * self.clone() + (Cmplx::one() - self.clone() * self.clone()).sqrt()).ln() )", "SILENT", "same logarithmic form, re-associated")
+seed("n-c14-acosh-commuted", "C14", CH, "( ( z - 1.0 ).sqrt() * ( z + 1.0 ).sqrt() + z ).ln()", "( z + ( z + 1.0 ).sqrt() * ( z - 1.0 ).sqrt() ).ln()", "SILENT", "commuted")
+seed("n-c14-atanh-distributed", "C14", CH, "( ( z + 1.0 ).ln() - ( Cmplx::one() - z ).ln() ) * 0.5", "( z + 1.0 ).ln() * 0.5 - ( Cmplx::one() - z ).ln() * 0.5", "SILENT", "distributed factor")
 seed("n-c14-commuted", "C14", CT, "Cmplx::new(self.real.sin() * self.imag.cosh(), self.real.cos() * self.imag.sinh())", "Cmplx::new(self.imag.cosh() * self.real.sin(), self.imag.sinh() * self.real.cos())", "SILENT", "commuted factors")
 seed("n-c14-neg-placement", "C14", CT, "Cmplx::new(self.real.cos() * self.imag.cosh(), -self.real.sin() * self.imag.sinh())", "Cmplx::new(self.real.cos() * self.imag.cosh(), -( self.real.sin() * self.imag.sinh() ))", "SILENT", "sign placement")
 
